@@ -43,6 +43,9 @@ func (f *Export) Call(s *slip.Scope, args slip.List, depth int) slip.Object {
 	p := slip.CurrentPackage
 	if 1 < len(args) {
 		p = slip.PackageFromArg(args[1])
+		if p == nil {
+			slip.PackagePanic(s, depth, nil, "Package %s does not exist.", args[1])
+		}
 	}
 	switch ta := args[0].(type) {
 	case slip.Symbol:
